@@ -103,6 +103,8 @@ package goproxytest
 //@   at call fmt.Fprintf#1: requires m.Path == path && unboxStr(at(a, lo(a))) == m.Version && !pseudoVersion(m.Version) && moduleCheckOK(m.Path, m.Version)
 //@   at call (net/http.ResponseWriter).Write#1: requires f.Name == want && sameSlice(b, f.Data) && gBodyWrites == old(gBodyWrites)
 //@   at call (net/http.ResponseWriter).Write#1: requires forall K {at(my_a.Files,K)} :: lo(my_a.Files) <= K && K < lo(my_a.Files) + rangeindex ==> at(my_a.Files,K).Name != want
+//@   at call module.UnescapePath#1: requires sameStr(escaped, enc)
+//@   at call module.UnescapeVersion#1: requires sameStr(escaped, encVers)
 //@   at call semver.Compare#1: requires m.Path == path && v == best && w == m.Version
 //@   at call goproxytest.isPseudoVersion#2: requires v == m.Version
 //@   at call (*goproxytest.Server).findHash#1: requires !pseudoVersion(m.Version)
@@ -160,6 +162,7 @@ package goproxytest
 //@   at call os.ReadFile#1: requires name == path && !isDirEntry(entry) && err == nil
 //@   ensures err != nil ==> r != nil && sameSlice(a.Files, old(a.Files))
 //@   ensures isDirEntry(entry) ==> sameSlice(a.Files, old(a.Files))
+//@   ensures isDirEntry(entry) && err == nil && !sameStr(path, name) ==> r == nil
 //@   ensures r == nil && !isDirEntry(entry) ==> len(a.Files) == old(len(a.Files)) + 1
 //@   ensures r == nil && !isDirEntry(entry) ==> sid(at(a.Files, hi(a.Files) - 1).Data) == fileContent(sid(path))
 
